@@ -245,6 +245,39 @@ def pair(ctx):
         ctx.ob('PAIR', 'type-name/%s' % kind, tn.get(kind) == {nm} and nm in rtypes, short_loc(kb.span) if kb else None,
                'renderer writes %s for %s; parser accepts it: %s (spec: "%s")' % (sorted(tn.get(kind, [])), kind, nm in rtypes, nm))
     ctx.ob('PAIR', 'type-names-closed', rtypes == set(SPEC_TYPE_NAMES.values()), None, 'type names accepted by the parser: %s' % sorted(rtypes))
+    logical_pair(ctx, 'PAIR')
+    rn = fn_by_label(f, 'schema::safe::parsing::SchemaConstructionState::register_node')
+    # decimal parameters under the keys the parser reads: precision & scale in both
+    ctx.ob('PAIR', 'decimal-keys', {'precision', 'scale'} <= wkeys and {'precision', 'scale'} <= rkeys_obj, None, 'decimal parameters written/read under precision, scale')
+    # each decimal key carries the right field
+    okd = 0
+    for b in ser_bodies:
+        for bb, t in b.calls():
+            if (t.get('callee') or '').endswith('SerializeMap::serialize_entry'):
+                k = origin(b, t['args'][1])
+                v = origin(b, t['args'][2])
+                ks = {x for x in k.consts() if isinstance(x, str)}
+                if ks == {'scale'} and 'scale' in v.fields and 'precision' not in v.fields:
+                    okd += 1
+                if ks == {'precision'} and 'precision' in v.fields and 'scale' not in v.fields:
+                    okd += 1
+    ctx.ob('PAIR', 'decimal-values', okd == 2, None, '"scale" carries decimal.scale and "precision" carries decimal.precision: %d of 2' % okd)
+    # parser side: Decimal{precision: field!(precision), scale: field!(scale)}
+    okp = False
+    if rn is not None:
+        for bb in rn.live_blocks():
+            for st in rn.stmts(bb):
+                if 'assign' in st and st['rv']['k'] == 'agg' and st['rv'].get('adt') == 'schema::safe::Decimal':
+                    po = origin(rn, st['rv']['ops'][st['rv']['fields'].index('precision')])
+                    so = origin(rn, st['rv']['ops'][st['rv']['fields'].index('scale')])
+                    okp = 'precision' in po.fields and 'scale' not in po.fields and 'scale' in so.fields and 'precision' not in so.fields
+    ctx.ob('PAIR', 'decimal-parsed', okp, short_loc(rn.span) if rn else None, 'parser builds Decimal{precision <- "precision", scale <- "scale"}: %s' % okp)
+
+
+def logical_pair(ctx, rule):
+    """renderer's logical-type names map back to their own variant in the parser; unknown names are kept verbatim
+    (shared: C09 PAIR, C07 PRESERVE)"""
+    f = ctx.f
     # logical types: as_str(V)
     a = fn_by_label(f, 'schema::safe::LogicalType::as_str')
     w = {}
@@ -277,34 +310,22 @@ def pair(ctx):
                             vs.add(st['rv']['variant'])
                 back[s_] = vs
     for v, nm in SPEC_LOGICAL.items():
-        ctx.ob('PAIR', 'logical/%s' % v, w.get(v) == {nm} and back.get(nm) == {v}, short_loc(a.span) if a else None,
+        ctx.ob(rule, 'logical/%s' % v, w.get(v) == {nm} and back.get(nm) == {v}, short_loc(a.span) if a else None,
                'LogicalType::%s is rendered as %s; the parser maps "%s" back to %s (spec name "%s")' % (v, sorted(w.get(v, [])), nm, sorted(back.get(nm, [])), nm))
-    ctx.floor('PAIR', 'logical type names mapped by the parser', len(back), 9)
-    # decimal parameters under the keys the parser reads: precision & scale in both
-    ctx.ob('PAIR', 'decimal-keys', {'precision', 'scale'} <= wkeys and {'precision', 'scale'} <= rkeys_obj, None, 'decimal parameters written/read under precision, scale')
-    # each decimal key carries the right field
-    okd = 0
-    for b in ser_bodies:
-        for bb, t in b.calls():
-            if (t.get('callee') or '').endswith('SerializeMap::serialize_entry'):
-                k = origin(b, t['args'][1])
-                v = origin(b, t['args'][2])
-                ks = {x for x in k.consts() if isinstance(x, str)}
-                if ks == {'scale'} and 'scale' in v.fields and 'precision' not in v.fields:
-                    okd += 1
-                if ks == {'precision'} and 'precision' in v.fields and 'scale' not in v.fields:
-                    okd += 1
-    ctx.ob('PAIR', 'decimal-values', okd == 2, None, '"scale" carries decimal.scale and "precision" carries decimal.precision: %d of 2' % okd)
-    # parser side: Decimal{precision: field!(precision), scale: field!(scale)}
-    okp = False
+    ctx.floor(rule, 'logical type names mapped by the parser', len(back), 9)
+    # an unknown logical type keeps its text exactly (no case folding / trimming on the way into the node)
+    uk = []
     if rn is not None:
-        for bb in rn.live_blocks():
-            for st in rn.stmts(bb):
-                if 'assign' in st and st['rv']['k'] == 'agg' and st['rv'].get('adt') == 'schema::safe::Decimal':
-                    po = origin(rn, st['rv']['ops'][st['rv']['fields'].index('precision')])
-                    so = origin(rn, st['rv']['ops'][st['rv']['fields'].index('scale')])
-                    okp = 'precision' in po.fields and 'scale' not in po.fields and 'scale' in so.fields and 'precision' not in so.fields
-    ctx.ob('PAIR', 'decimal-parsed', okp, short_loc(rn.span) if rn else None, 'parser builds Decimal{precision <- "precision", scale <- "scale"}: %s' % okp)
+        for b in [rn] + f.closures_of(rn):
+            for bb, t in b.calls():
+                if strip_generics(cname(t)).endswith('UnknownLogicalType::new'):
+                    uk.append((b, t))
+    okv = len(uk) >= 1
+    for b, t in uk:
+        o = origin(b, t['args'][0])
+        okv = okv and not [a for a in o.atoms if a[0] == 'call'] and not o.has_arith()
+    ctx.ob(rule, 'logical/unknown-verbatim', okv, short_loc(rn.span) if rn else None,
+           'the text of an unknown logicalType reaches UnknownLogicalType::new untransformed: %s' % okv)
 
 
 def namespace(ctx):
@@ -359,6 +380,23 @@ def namespace(ctx):
                 if ('parent_namespace' in a0.fields or 'parent_namespace' in a1.fields) and any(strip_generics(cname(c)).endswith('Name::namespace') for c in a0.calls + a1.calls):
                     ok = True
         ctx.ob('NAMESPACE', '%s-compares-parent' % nm, ok, short_loc(b.span) if b else None, '%s compares the name\'s namespace with the parent namespace: %s' % (nm, ok))
+    # a reference to a name in the null namespace from inside another namespace is written ".name": the only formatted
+    # string of str_for_ref is "." followed by the full name
+    b = fn_by_label(f, SER + 'SerializeSchema::str_for_ref')
+    ok, det = False, 'str_for_ref not found'
+    if b is not None:
+        fm = [(bb, t) for bb, t in b.calls() if strip_generics(cname(t)).endswith(('fmt::Arguments::new', 'fmt::Arguments::new_v1'))]
+        det = '%d formatted string(s)' % len(fm)
+        if len(fm) == 1:
+            lit = fmt_template_literals(b, fm[0][1]['args'][0])
+            shown = [t for bb, t in b.calls() if strip_generics(cname(t)).endswith('Argument::new_display')]
+            full = len(shown) == 1 and any(strip_generics(cname(c)).endswith('Name::fully_qualified_name') for c in origin(b, shown[0]['args'][0]).calls)
+            # reached only when the name has no namespace
+            none_guard = any('None' in names or 'is_none' in ' '.join(cname(c) for c in origin(b, oo).calls) for names, adt, oo, d_, oth in option_guards(b, fm[0][0])) or \
+                any(strip_generics(cname(c)).endswith('Option::is_none') for d, si, taken in dominating_switches(b, fm[0][0]) for c in origin(b, si.get('op') or si.get('place')).calls)
+            ok = lit == ('.', False) and full and none_guard
+            det = 'null-namespace reference is formatted as %r + fully_qualified_name(): %s, under namespace().is_none(): %s' % (lit[0] if lit else None, full, none_guard)
+    ctx.ob('NAMESPACE', 'null-namespace-ref-has-leading-dot', ok, short_loc(b.span) if b else None, det)
 
 
 def key_sites(b, key):
